@@ -4,10 +4,11 @@ from pyvc.vc import Engine
 from pyvc.run import discharge, feasibility
 from pyvc import api
 from contracts.schema import TREE_SCHEMA
-import contracts.common, contracts.matlab_text
+import contracts.common, contracts.matlab_text, contracts.names
 import contracts.c05 as c05
 repo=Repo()
-e=Engine(repo,TREE_SCHEMA,api.CONTRACTS,api.SPECS)
+from contracts.schema import TREE_INVARIANTS
+e=Engine(repo,TREE_SCHEMA,api.CONTRACTS,api.SPECS,TREE_INVARIANTS)
 e.hook_guards=[c05.GATEWAY]
 keys=sys.argv[1:]
 frs=[]
@@ -23,3 +24,5 @@ for r in res:
         print(r.verdict,r.solver,'%.2f'%r.time,r.func,r.path_idx,r.ob.kind,r.ob.lineno,r.ob.note[:120])
         open('/tmp/fail%d.smt2'%bad,'w').write(r.text)
 print('obligations',len(res),'not discharged',bad,'max time %.2f'%max([r.time for r in res] or [0]))
+for fr in frs:
+    for p in fr.paths[:6]: print('PATH',p.trace[:6],p.outcome,len(p.obligations))
